@@ -94,6 +94,8 @@ def _runner_main(jobs_path: str, out_path: str) -> None:
             lab = labtech.Lab(storage=storage, context=D.lab_context(1, cfg['n']), runner_backend=cfg['backend'],
                               max_workers=(None if job.get('maxw_none') else cfg['maxw']),
                               continue_on_failure=cfg['cof'], notebook=False)
+            if job.get('ctx_pair'):
+                os.environ['LV_RICH'] = '1'      # results carry task objects (the task itself, its dependencies)
             if job.get('gated', True):
                 os.environ['LV_GATE_DIR'] = str(gate)
                 os.environ['LV_GATE_TIMEOUT'] = str(job.get('gate_timeout', 90))
@@ -125,26 +127,35 @@ def _runner_main(jobs_path: str, out_path: str) -> None:
             pair = None
             if job.get('ctx_pair') and cfg['storage']:
                 # the same request under a *different* context (same epoch), serial backend, fresh storage:
-                # keys and stored metadata must not depend on the context
-                sdir2 = jdir / 'storage2'
-                st2 = labtech.storage.LocalStorage(sdir2)
-                D.prepare_storage(cfg, st2, job.get('shape_seed', 0))
-                built2 = D.Built(cfg, job.get('shape_seed', 0))
+                # keys and stored metadata must not depend on the context; and two serial runs that differ only in the
+                # context must leave byte-identical entries (results carry task objects: LV_RICH)
+                def again(name, ctx):
+                    sd = jdir / name
+                    os.environ.pop('LV_RICH', None)
+                    D.prepare_storage(cfg, labtech.storage.LocalStorage(sd), job.get('shape_seed', 0))
+                    os.environ['LV_RICH'] = '1'
+                    b2 = D.Built(cfg, job.get('shape_seed', 0))
+                    lab2 = labtech.Lab(storage=str(sd), context=ctx, runner_backend='serial',
+                                       continue_on_failure=True, notebook=False)
+                    old2 = list(labtech.logger.handlers)
+                    labtech.logger.handlers = [Collect()]
+                    try:
+                        lab2.run_tasks(b2.requested(), bust_cache=cfg['bust'], disable_progress=True, disable_top=True)
+                    except BaseException:   # noqa
+                        pass
+                    labtech.logger.handlers = old2
+                    return sd
                 ctx2 = D.lab_context(1, cfg['n'])
                 ctx2.update({'big': 'y' * 7, 'extra': [1, 2, 3]})
-                lab2 = labtech.Lab(storage=str(sdir2), context=ctx2, runner_backend='serial',
-                                   continue_on_failure=True, notebook=False)
-                old2 = list(labtech.logger.handlers)
-                labtech.logger.handlers = [Collect()]
-                try:
-                    lab2.run_tasks(built2.requested(), bust_cache=cfg['bust'], disable_progress=True, disable_top=True)
-                except BaseException:   # noqa
-                    pass
-                labtech.logger.handlers = old2
-                pair = (_listing(sdir), _listing(sdir2))
+                sdir2 = again('storage2', ctx2)
+                sdir3 = again('storage3', D.lab_context(1, cfg['n']))
+                pair = (_listing(sdir) + ['-- serial, data included --'] + _listing(sdir3, data=True),
+                        _listing(sdir2) + ['-- serial, data included --'] + _listing(sdir2, data=True))
+                leak = _contains(sdir, D.lab_context(1, cfg['n'])['big'].encode())
+            os.environ.pop('LV_RICH', None)
             _verif.emit('obs_end')
             if pair is not None:
-                _verif.emit('obs_ctxstore', a=pair[0], b=pair[1])
+                _verif.emit('obs_ctxstore', a=pair[0], b=pair[1], leak=int(leak))
             _verif.emit('obs_cache', cached=cached, vals=vals)
             _verif.emit('obs_marks', insts=insts)
             _verif.emit('obs_logs', delivered=handler.msgs)
@@ -162,7 +173,8 @@ def _runner_main(jobs_path: str, out_path: str) -> None:
             shutil.rmtree(jdir, ignore_errors=True)
 
 
-def _listing(sdir) -> list:
+def _listing(sdir, data: bool = False) -> list:
+    import hashlib
     out = []
     for key in sorted(os.listdir(sdir)):
         p = os.path.join(sdir, key)
@@ -172,10 +184,27 @@ def _listing(sdir) -> list:
             meta = json.load(open(os.path.join(p, 'metadata.json')))
             meta.pop('start_timestamp', None)
             meta.pop('duration_seconds', None)
-            out.append(key + '|' + json.dumps(meta, sort_keys=True))
+            line = key + '|' + json.dumps(meta, sort_keys=True)
+            if data:
+                for fn in sorted(os.listdir(p)):
+                    if fn != 'metadata.json':
+                        line += f'|{fn}:{hashlib.sha1(open(os.path.join(p, fn), "rb").read()).hexdigest()[:16]}'
+            out.append(line)
         except Exception as ex:   # noqa
             out.append(key + '|unreadable:' + type(ex).__name__)
     return out
+
+
+def _contains(sdir, needle: bytes) -> bool:
+    """Does any stored file contain the given content of the Lab's context?"""
+    for root, _dirs, files in os.walk(sdir):
+        for fn in files:
+            try:
+                if needle in open(os.path.join(root, fn), 'rb').read():
+                    return True
+            except OSError:
+                pass
+    return False
 
 
 # =========================================================================== controller
